@@ -32,7 +32,8 @@ def configs(tier):
         archs = [(nv, nh) for nv in range(1, 6) for nh in range(1, 7)]
     hist = [{"kind": "complex", "nv": 2, "nh": 1, "grad": "off"}, {"kind": "positive", "nv": 2, "nh": 3, "via": "deepcopy"}, {"kind": "complex", "nv": 2, "nh": 1, "via": "deepcopy"}, {"kind": "complex", "nv": 1, "nh": 1, "via": "pickle"},
             {"kind": "positive", "nv": 2, "nh": 2, "params": "require grad"}, {"kind": "complex", "nv": 2, "nh": 1, "params": "require grad"}]
-    return [{"kind": k, "nv": nv, "nh": nh} for k in ("positive", "complex") for (nv, nh) in archs] + hist + [{"generic": "every shape"}, {"lean": "size-generic lemmas"}, {"independence": "complex"}]
+    return [{"kind": k, "nv": nv, "nh": nh} for k in ("positive", "complex") for (nv, nh) in archs] + hist + [{"generic": "every shape"}, {"lean": "size-generic lemmas"}, {"independence": "complex"}] + \
+        [{"callee": "indexing", "size": s} for s in (1, 2, 3, 4)]
 
 
 def canaries(tier):
@@ -66,6 +67,11 @@ def _mk_stub_energy(arr, log, nv):
 
 
 def run_config(ctx, cfg):
+    if cfg.get("callee"):
+        # the basis over which the statements of this property are summed is generate_hilbert_space's result: its
+        # contract (C19: row k is the expansion of k, also after a caller modified an earlier result) is shared here
+        from lemmas import C19
+        return C19._indexing(ctx, {"part": "indexing", "size": cfg["size"]})
     if cfg.get("independence"):
         # the amplitude and the phase network are independent objects on every construction route (also module=): what one
         # network holds never follows the other
@@ -288,6 +294,9 @@ def run_config(ctx, cfg):
 
 
 def replay(o):
+    if o["cfg"].get("callee"):
+        from drivers import C19 as D19
+        return D19.replay({"part": "indexing", "size": o["cfg"]["size"]})
     if o["cfg"].get("independence"):
         from drivers import C20 as D20
         return D20.replay({"part": "module", "kind": o["cfg"]["independence"]})
